@@ -84,6 +84,11 @@ F: Dict[str, Dict[str, Any]] = {
     'docupdate-via-pkg-attr': {'b': 'class Foo38:\n    "orig"\n', 'c': 'import p\np.b.Foo38.__doc__ = "patched"\n'},
     # (a cycle through a module that REdefines the imported class is entry-order dependent in CPython itself - not generated)
     'cycle-moved-class': {'a': 'from p.b import B40\nclass X40(B40): pass\n', 'b': 'import p.a\nclass B40: pass\n', 'c': 'from p.a import X40\n__all__ = ["X40"]\n', '__cyclic__': True},
+    # a star import from a package exposes the name of a sub-module nobody imported; a docstring assigned through an alias of the PACKAGE to an object of a sub-module
+    'star-pkg-exposes-submodule': {'p': '__all__ = ["a"]\n', 'a': 'class Sh41:\n    "sh doc"\n    def f(self): "f doc"\n', 'c': 'from p import *\nclass Ci41(a.Sh41):\n    def f(self): pass\n'},
+    'star-pkg-no-all-submodule': {'a': 'class Sh44:\n    "sh doc"\n', 'c': 'from p import *\nclass Ci44(a.Sh44): pass\n'},
+    'docupdate-via-pkg-alias': {'b': 'class Foo43:\n    "orig"\n    def m(self): "orig m"\n', 'c': 'import p as pp43\npp43.b.Foo43.__doc__ = "patched"\npp43.b.Foo43.m.__doc__ = "patched m"\n'},
+    'docupdate-via-pkg-from': {'b': 'def g45():\n    "orig"\n', 'a': 'from p import b as mb45\n', 'c': 'from p import a as ma45\nma45.mb45.g45.__doc__ = "patched"\n'},
     'cycle':        {'a': 'from .b import B17\nclass A17: pass\nclass A17b(B17): pass\n', 'b': 'from .a import A17\nclass B17(A17): pass\n', '__cyclic__': True},
     'cycle3':       {'a': 'from .b import B27\nclass A27(B27): pass\n', 'b': 'from .c import C27\nclass B27(C27): pass\n', 'c': 'from . import a\nclass C27: pass\nclass D27(a.A27): pass\n', '__cyclic__': True},
     'tc-cycle':     {'a': 'from typing import TYPE_CHECKING\nif TYPE_CHECKING:\n    from .b import B18\nclass A18: pass\n', 'b': 'from .a import A18\nclass B18(A18): pass\n', '__cyclic__': True},
@@ -143,7 +148,25 @@ def import_cycle(src: Dict[str, str], skel: str) -> bool:
     for k, text in src.items():
         modname, ispkg = full[k]
         pkg = modname if ispkg else modname.rsplit('.', 1)[0] if '.' in modname else ''
+        aliases: Dict[str, str] = {}      # local name -> dotted module path it stands for ('import p as pp', 'from p import b as bb')
         for node in _ast.walk(_ast.parse(text)):
+            if isinstance(node, _ast.Import):
+                for al in node.names:
+                    if al.asname:
+                        aliases[al.asname] = al.name
+            elif isinstance(node, _ast.ImportFrom) and not node.level:
+                for al in node.names:
+                    if al.name != '*':
+                        aliases[al.asname or al.name] = f'{node.module}.{al.name}'
+        for node in _ast.walk(_ast.parse(text)):
+            if isinstance(node, _ast.Attribute):
+                try:
+                    dotted = _ast.unparse(node)
+                except Exception:  # noqa
+                    dotted = ''
+                head, _, rest = dotted.partition('.')
+                if head in aliases and rest:
+                    add(k, aliases[head] + '.' + rest)
             if isinstance(node, _ast.Import):
                 for al in node.names:
                     add(k, al.name)
